@@ -92,9 +92,9 @@ def run(ctx):
     else:
         recs += gramgen.generate(ctx, "counts+separators", 2, 2, 1, 2, ["", "3", "0.5", "10", ".25", "3."], [" ", "+", " + "], [],
                                  timeout=1500)
-        recs += gramgen.generate(ctx, "deep structures", 3, 3, 2, 3, ["", "2"], [" "], [], timeout=1500)
+        recs += gramgen.generate(ctx, "deep structures", 3, 2, 2, 3, ["", "2"], [" "], [], timeout=1500)
     recs += gramgen.generate(ctx, "deep", 7, 3, 3, 4, ALL_COUNTS, [" ", "+", " + ", "  "], sorted(DENS),
-                             simulate=(60 if quick else 1500), sim_depth=40)
+                             simulate=(60 if quick else 600), sim_depth=40)
     # ---- instantiate
     items = []      # (string, table, kind, expected, meta)
     reps = 1 if quick else 3
